@@ -254,9 +254,11 @@ func (s *SpokFile) run(stream iostream.IOStream, runner shell.Runner, force bool
 			// So forget the old digest before running...
 			if cachedDigest != "" {
 				cachedState.Set(taskToRun.Name, "")
+				simhook.Point("run.dump.before", taskToRun.Name)
 				if err := cachedState.Dump(cachePath); err != nil {
 					return nil, err
 				}
+				simhook.Point("run.dump.after", taskToRun.Name)
 			}
 			result, err = taskToRun.Run(runner, stream, s.Env())
 			if err != nil {
@@ -272,9 +274,11 @@ func (s *SpokFile) run(stream iostream.IOStream, runner shell.Runner, force bool
 			if len(toHash) != 0 && newDigest != "" {
 				s.logger.Debug("Updating cached state for task %s", taskToRun.Name)
 				cachedState.Set(taskToRun.Name, newDigest)
+				simhook.Point("run.dump.before", taskToRun.Name)
 				if err := cachedState.Dump(cachePath); err != nil {
 					return nil, err
 				}
+				simhook.Point("run.dump.after", taskToRun.Name)
 			}
 
 		default:
